@@ -103,6 +103,8 @@ fn call(oracle: &str, v: &Value) -> Value {
         #[cfg(feature = "lsp")]
         "incan::emit_division" => c05::emit_division(v),
         #[cfg(feature = "lsp")]
+        "incan::emit_range" => c05::emit_range(v),
+        #[cfg(feature = "lsp")]
         "incan::emit_promotion" => c05::emit_promotion(v),
         #[cfg(feature = "lsp")]
         "lsp::diagnostic_range" => c05::diagnostic_range(v),
@@ -416,6 +418,43 @@ mod c05 {
         let ok = matches!(&got, Ok(rs) if rs.iter().all(|(st, en)| st <= en && *en <= doc_end));
         verdict(ok, match &got { Ok(rs) => json!({"ranges": rs.iter().map(|(a, b)| json!([[a.0, a.1], [b.0, b.1]])).collect::<Vec<_>>()}), Err(m) => json!({"panicked": m}) },
                 json!({"every_range": "start <= end <= end of document", "doc_end": [doc_end.0, doc_end.1]}), v, "published diagnostic ranges lie inside the document with start <= end")
+    }
+
+    /// C05 bounded stand-in for the call site of the runtime `range`: `range(e)`, `range(s, e)`, `range(s, e, k)` in a
+    /// for loop must become `incan_stdlib::iter::range(start, end, step)` with the written arguments in the written
+    /// positions and the documented defaults (start 0, step 1).
+    pub fn emit_range(v: &Value) -> Value {
+        let forms = ["var", "zero", "neg", "two", "expr"];
+        let txt = |f: &str, var: &str| -> String { match f { "var" => var.to_string(), "zero" => "0".to_string(), "neg" => "-3".to_string(), "two" => "2".to_string(), _ => format!("{} + 1", var) } };
+        let arity = v["arity"].as_u64().unwrap() as usize;     // 1, 2 or 3
+        let (fa, fb, fc) = (forms[v["a"].as_u64().unwrap() as usize % 5], forms[v["b"].as_u64().unwrap() as usize % 5], forms[v["c"].as_u64().unwrap() as usize % 5]);
+        let (a, b, c) = (txt(fa, "st"), txt(fb, "en"), txt(fc, "sp"));
+        let args = match arity { 1 => b.clone(), 2 => format!("{}, {}", a, b), _ => format!("{}, {}, {}", a, b, c) };
+        let src = format!("def main() -> None:\n    st: int = 1\n    en: int = 9\n    sp: int = 2\n    for i in range({}):\n        println(i)\n", args);
+        let got = guarded(|| {
+            let tokens = incan::frontend::lexer::lex(&src).map_err(|e| format!("lex: {:?}", e.first().map(|x| x.message.clone())))?;
+            let prog = incan::frontend::parser::parse(&tokens).map_err(|e| format!("parse: {:?}", e.first().map(|x| x.message.clone())))?;
+            incan::IrCodegen::new().try_generate(&prog).map_err(|e| format!("codegen: {}", e))
+        });
+        let echo = { let mut a = v.clone(); a["source"] = json!(src); a };
+        // an argument is judged by meaning: it must mention the written operand's tokens; a default must be the literal
+        let want: Vec<Option<String>> = match arity { 1 => vec![None, Some(norm(&b)), None], 2 => vec![Some(norm(&a)), Some(norm(&b)), None], _ => vec![Some(norm(&a)), Some(norm(&b)), Some(norm(&c))] };
+        match &got {
+            Ok(Ok(code)) => {
+                let flat: String = code.split_whitespace().collect::<Vec<_>>().join(" ").replace(" :: ", "::");
+                let got_args = call_args(&flat, "incan_stdlib::iter::range").map(|x| x.iter().map(|y| norm(y)).collect::<Vec<_>>());
+                let ok = match &got_args {
+                    Some(g) if g.len() == 3 => {
+                        let pos_ok = |gi: &str, w: &Option<String>, default: &str| match w { Some(t) => gi.contains(t.as_str()), None => gi == default || gi == format!("{}asi64", default) || gi == format!("{}i64", default) };
+                        pos_ok(&g[0], &want[0], "0") && pos_ok(&g[1], &want[1], "?") && pos_ok(&g[2], &want[2], "1")
+                    }
+                    _ => false,
+                };
+                verdict(ok, json!({"range_call_args": got_args}), json!({"args (start, end, step); None = documented default": want}), &echo, "generated call of the runtime range: written arguments in written positions, defaults 0 and 1")
+            }
+            Ok(Err(m)) => verdict(false, json!({"front_end_error": m}), json!("a program"), &echo, "a for loop over range must compile"),
+            Err(m) => verdict(false, json!({"panicked": m}), json!("a program"), &echo, "front end must not panic"),
+        }
     }
 
     pub fn emit_slice(v: &Value) -> Value {
@@ -777,6 +816,13 @@ fn search(oracle: &str, seed: u64, budget: u64, skip: &[String]) -> Value {
                 let q = n / docs.len() as u64;
                 let pick = |z: u64| -> usize { if z < (d.len() + 2) as u64 { z as usize } else if z == (d.len() + 2) as u64 { usize::MAX - 1 } else { usize::MAX / 2 } };
                 json!({"s": d, "start": pick(q % m), "end": pick((q / m) % m)})
+            }
+            "incan::emit_range" => {
+                // exhaustive: arity 1..3 x 5 forms per written argument = 5 + 25 + 125 = 155 programs
+                let k = n % 155;
+                if k < 5 { json!({"arity": 1, "a": 0, "b": k, "c": 0}) }
+                else if k < 30 { json!({"arity": 2, "a": (k - 5) / 5, "b": (k - 5) % 5, "c": 0}) }
+                else { let q = k - 30; json!({"arity": 3, "a": q / 25, "b": (q / 5) % 5, "c": q % 5}) }
             }
             "incan::emit_division" => {
                 // exhaustive: 3 operators x 2 x 2 operand kinds x 5 forms (plain, compound on local / field / list element, const initializer) = 60 programs
